@@ -40,4 +40,14 @@ CONF = {
         "tiers": tiers(8, 25000, 16, 400000, t_fuzz=[{"target": "FuzzC08", "seconds": 120}]),
         "require_classes": ["product>=2^64", "wide", "refill", "pair", "total<=0", "current>=total"],
     },
+    "C07": {
+        "rule": "cases = (mode fill|decor|row, terminal width 0..250, requested width, bar/spinner/nop style over an alphabet with wide, zero-width, multi-rune and empty components, 0-4 decorators with W/C configs and wrapper stacks, int64 counters, 1-4 repeated renders); non-trivial = a component of width != 1, refill>0, requested>available, width<6 or decorators that do not fit; distinct by FNV-64 of the case JSON",
+        "assumptions": GO_ASSUME + [
+            "display width measured with go-runewidth after stripansi (same tables as the library): the property is about mpb's layout arithmetic",
+            "non-termination verdict: a draw call still running after 10 s or growing the heap by 256 MiB (normal calls take microseconds)",
+            "style alphabet restricted to strings that do not join into grapheme clusters with their neighbours",
+        ],
+        "tiers": tiers(8, 6000, 16, 150000, t_fuzz=[{"target": "FuzzC07", "seconds": 180}]),
+        "require_classes": ["mode:fill", "mode:decor", "mode:row", "zero-width-component", "wide-component", "wide-tip", "multi-tip", "row:decorators-exceed-width", "row:pty", "style:spinner"],
+    },
 }
